@@ -276,7 +276,11 @@ impl Report {
         });
         let dir = verif_dir();
         let _ = std::fs::create_dir_all(dir.join("evidence"));
-        let evp = dir.join("evidence").join(format!("{}.json", self.property));
+        // VERIF_PART=<name>: this run is one part of a multi-engine check; the driver merges the parts.
+        let evp = match std::env::var("VERIF_PART") {
+            Ok(part) if !part.is_empty() => dir.join("evidence").join(format!("{}.{}.json", self.property, part)),
+            _ => dir.join("evidence").join(format!("{}.json", self.property)),
+        };
         std::fs::write(&evp, serde_json::to_string_pretty(&ev).unwrap()).expect("cannot write evidence");
 
         println!(
